@@ -1,5 +1,5 @@
 """C16 — CMS round trips for every signer/recipient set, tamper rejection, zero-signer messages."""
-import json, re
+import json, os, re
 from vlib import core
 from vlib.core import hexs
 
@@ -270,6 +270,8 @@ def run(ctx):
         ctx.violation("correspondence:model-build", "extracted model does not build: " + log[-500:], {"kind": "correspondence", "log": log[-3000:]}, False)
         return finish(ctx)
     cases, sweeps = gen(ctx)
+    if os.environ.get("VERIF_DUMP_OPS"):
+        open(os.environ["VERIF_DUMP_OPS"], "w").write("\n".join([c[0] for c in cases + sweeps + gen_omits(ctx)]) + "\n")
     for v in (["asan"] if ctx.tier == "quick" else ["asan", "small"]):
         exe, log = core.build_harness("C16", v)
         if exe is None:
